@@ -2,7 +2,7 @@
 
 Monitors:
  (a) contract  deserialize(serialize(x)) == x  (field-by-field structural comparison written here) on the real
-     ReadAssignment / IsoformMatch / MatchEvent / BasicReadAssignment / primitives, generated over the format's domain;
+     ReadAssignment / IsoformMatch / MatchEvent / BasicReadAssignment (file format and pickle) / primitives, generated over the format's domain;
  (b) stream framing: random sequences of gene-info / assignment records written by the real TmpFileAssignmentPrinter,
      read back by BOTH real loaders; the abridged loader must stop at the same byte offsets and agree on shared fields;
  (c) real intermediate files of --keep_tmp CLI runs: full loader -> re-serialisation must reproduce the bytes;
@@ -305,6 +305,10 @@ def _worker(job):
                         # BasicReadAssignment own format
                         rt("BasicReadAssignment", ref, lambda o, ff: o.serialize(ff), ia.BasicReadAssignment.deserialize,
                            tol=2.0 ** -20)
+                        # ... and the form in which the abridged record travels from a worker process to the main process (pickle:
+                        # --high_memory with several threads)
+                        import pickle
+                        rt("BasicReadAssignment.pickle", ref, lambda o, ff: ff.write(pickle.dumps(o)), lambda ff: pickle.loads(ff.read()))
                     except Exception as e:
                         res["viol"].append(("quick-loader:exception", repr(e)[:200], describe(ra)))
                 if len(res["samples"]) < 2:
